@@ -74,7 +74,35 @@ let rec split_q acc = function
   | "?" :: rest -> (List.rev acc, rest)
   | w :: rest -> split_q (w :: acc) rest
   | [] -> failwith "no query"
+(* ---- ZoneTree cases: `tree <ti:name:id | tr:name>... ? f|g <name>` or `? l` *)
+let parse_abs (s : string) : n list =
+  (* absolute name, root label first *)
+  let labs = List.filter (fun x -> x <> "") (String.split_on_char '.' s) in
+  enc_label "" :: List.rev_map enc_label labs
+let tcache : (string * (znode * (n * n) list)) option ref = ref None
+let handle_tree (ws : string list) : string =
+  let (opw, q) = split_q [] ws in
+  let key = String.concat " " opw in
+  let (t, errs) =
+    match !tcache with
+    | Some (k, v) when k = key -> v
+    | _ ->
+      let ops = List.map (fun w -> match String.split_on_char ':' w with
+        | ["ti"; nm; id] -> ZIns (parse_abs nm, num id)
+        | ["tr"; nm] -> ZRem (parse_abs nm)
+        | _ -> failwith ("bad tree op " ^ w)) opw in
+      let v = c08_tree_run ops in tcache := Some (key, v); v in
+  let es = if errs = [] then "-" else String.concat "," (List.map (fun (i, e) ->
+    string_of_int (int_of_n i) ^ ":" ^ (match int_of_n e with 11 -> "ZoneExists" | 12 -> "ZoneDoesNotExist" | _ -> "?")) errs) in
+  let sh = function Some z -> string_of_int (int_of_n z) | None -> "-" in
+  match q with
+  | ["f"; nm] -> Printf.sprintf "F=%s E=%s" (sh (c08_tree_find t (parse_abs nm))) es
+  | ["g"; nm] -> Printf.sprintf "G=%s E=%s" (sh (c08_tree_get t (parse_abs nm))) es
+  | ["l"] -> let l = List.sort compare (List.map int_of_n (c08_tree_list t)) in
+             Printf.sprintf "L=%s E=%s" (if l = [] then "-" else String.concat "," (List.map string_of_int l)) es
+  | _ -> failwith "bad tree query"
 let handle (ws : string list) : string =
+  match ws with "tree" :: rest -> handle_tree rest | _ ->
   let (opw, q) = split_q [] ws in
   let key = String.concat " " opw in
   let (z, errs) =
